@@ -57,12 +57,13 @@ def parse_all(ctx, s):
                      ('of_str', u.parse_ranking_with_ties_of_str)):
         ctx.evals += 1
         try:
-            with watchdog(20):
+            with watchdog(3):      # a parse takes microseconds; 3 s means it does not terminate
                 fn(s)
             ctx.count('parsed_' + name)
         except ValueError:
             ctx.count('refused_' + name)
         except CaseTimeout as e:
+            ctx.count('parser_hangs')
             ctx.violation('parser-hangs', {'cfg': {}, 'kind': 'total', 'text': s, 'fn': name}, 'timeout', 'ValueError or result')
         except Exception as e:
             ctx.violation('parser-other-failure', {'cfg': {}, 'kind': 'total', 'text': s, 'fn': name}, None,
@@ -80,6 +81,13 @@ def run_total(ctx, sh):
         for t in product(alpha, repeat=L):
             s = pre + ''.join(t)
             n += 1
+            if n % 2000 == 0:
+                harness.mark({'note': 'enumerating strings', 'prefix': pre, 'count': n})
+            if ctx.counters.get('parser_hangs', 0) >= 3:
+                # three non-terminating parses already reported by this shard: the rest of its strings are skipped
+                # (the run is a VIOLATION anyway; the evidence of a violated run is not a coverage claim)
+                ctx.count('strings_skipped_after_three_hangs')
+                continue
             parse_all(ctx, s)
     ctx.cases += n
     ctx.nontrivial += n
